@@ -36,7 +36,7 @@ def build_coq():
     if not os.path.exists(os.path.join(COQ, 'Makefile')) or \
             os.path.getmtime(os.path.join(COQ, '_CoqProject')) > os.path.getmtime(os.path.join(COQ, 'Makefile')):
         sh('coq_makefile -f _CoqProject -o Makefile', cwd=COQ, check=True)
-    p = sh('timeout 1500 make -j%d 2>&1' % NPROC, cwd=COQ, timeout=1600)
+    p = sh('timeout 1500 make -k -j%d 2>&1' % NPROC, cwd=COQ, timeout=1600)
     return p.returncode == 0, p.stdout
 
 
